@@ -135,9 +135,14 @@ def gen(ctx, size, long_msgs=False):
         ctx.add('sig.rawsign_pt', esk.hex(), hx(msg), expect=[Ab.hex(), (R + to32(S)).hex(), 'ok'], cls='hazmat:passthrough')
 
 
-def task(prop, seed, size, cfgbins, long_msgs=False):
+def make(seed, size, long_msgs=False):
     ctx = core.Ctx(seed, prefix='g%d_' % (seed % 100000))
     gen(ctx, size, long_msgs)
+    return ctx
+
+
+def task(prop, seed, size, cfgbins, long_msgs=False):
+    ctx = make(seed, size, long_msgs=long_msgs)
     return core.run_and_judge(prop, ctx, cfgbins)
 
 
